@@ -647,6 +647,21 @@ func genManifest() {
 	}
 	var mcs []mcheck
 	byEngine := map[string][]string{}
+	// Only checks listed in checks.enabled are claimed: a fragment under checks.d may belong
+	// to a monitor that is still being built or calibrated.
+	enabled := map[string]bool{}
+	if eb, err := os.ReadFile(filepath.Join(verifDir, "checks.enabled")); err == nil {
+		for _, f := range strings.Fields(string(eb)) {
+			enabled[f] = true
+		}
+	}
+	var claimed []Check
+	for _, c := range cf.Checks {
+		if enabled[c.ID] {
+			claimed = append(claimed, c)
+		}
+	}
+	cf.Checks = claimed
 	for _, c := range cf.Checks {
 		eng := c.Engine
 		if eng == "" {
